@@ -38,6 +38,13 @@ inductive Op where
   | «end»
 deriving Repr, Inhabited
 
+/-- Operations that run no event handler and do not draw into a render buffer (the ones `no_ub` covers;
+    `end` is covered by `all_released`). -/
+def Op.plain : Op → Bool
+  | .focus _ | .key | .mouse _ | .mdisp .. | .«end» => false
+  | .btext .. | .berase .. | .bskip .. | .bchar .. | .bhline .. | .bclear _ => false
+  | _ => true
+
 /-! ## observation text (must equal what harness/life.c prints) -/
 
 def showIds (l : List Id) : String := ",".intercalate (l.map toString)
